@@ -223,6 +223,12 @@ def session(bindir, rng, tag, tier):
             rd.send(apps.KEYS[k])
             rd.wait_frames(rd.frame_count() + 2, 3)
             marks.append(rd.frame_count())
+        if places:
+            # the places are part of what is shown, not of the view: still there after a reset, on both tabs that draw them
+            for k in ("F1", "Enter", "F2", "F1"):
+                rd.send(apps.KEYS[k])
+                rd.wait_frames(rd.frame_count() + 2, 3)
+                marks.append(rd.frame_count())
         rd.send(apps.KEYS["q"])
         rd.wait_exit(4)
         snaps, snaps_fg = vt.snapshots_with_colour(rd.out, size[0], size[1])
